@@ -211,6 +211,7 @@ type Ctx struct {
 	parents map[*ast.File]map[ast.Node]ast.Node
 	cfgs    map[*ast.BlockStmt]*FuncCFG
 	decls   map[string]map[string]*ast.FuncDecl
+	own     *Own
 }
 
 type Variant struct {
